@@ -335,13 +335,21 @@ def version_collisions(ctx):
     from pybufrkit.utils import EntityEncoder
     rng = ctx.rng
     pairs = cases.version_sensitive_pairs(19 if ctx.quick else 6)
+    lpairs = cases.local_sensitive_pairs()
     if not pairs:
         return
     plain_d, plain_e = Decoder(), Encoder()
-    for _ in range(6 if ctx.quick else 40):
-        pair = rng.choice(pairs)
+    for it in range(6 if ctx.quick else 40):
         try:
-            ids, (ma, mb) = cases.version_pair_messages(rng, pair, compressed=rng.random() < 0.3)
+            if lpairs and it % 3 == 2:
+                # same descriptors and master version, two bundled LOCAL table versions
+                lp = rng.choice(lpairs)
+                ids, (ma, mb) = cases.local_pair_messages(rng, lp, compressed=rng.random() < 0.3)
+                pair = (lp[0], lp[1][2], lp[2][2])
+                ctx.count('local_table_collision_pairs')
+            else:
+                pair = rng.choice(pairs)
+                ids, (ma, mb) = cases.version_pair_messages(rng, pair, compressed=rng.random() < 0.3)
         except (R.Unsupported, KeyError):
             continue
         msgs = {'A': ma.bytes, 'B': mb.bytes}
